@@ -1,10 +1,19 @@
 import OnlVerif.Lemmas.KernelStep
 import OnlVerif.Lemmas.KAccess
+import OnlVerif.Lemmas.CondValue
+import OnlVerif.Lemmas.CondExamples
 /-!
 # C05 — condition events fire exactly when their predicate first holds, with exact value
 
 Model: `Condition.__init__`, `_check`, `_build_value`, `_populate_value`, `_remove_check_callbacks`,
 `all_events`, `any_events` in `OnlVerif/Kernel/Ops.lean`.
+
+First the *local* theorems (one call of `_check` / `_build_value` / `__init__` at a time).  The delimited block at the end
+holds the *global* ones — for every program and every state reachable by `step`: the counting invariant
+(`cond_counting_invariant`, `…_midstep`), the trigger instant (`cond_triggers_exactly_when_first_met`,
+`cond_constructor_triggers_exactly_when_met`, `cond_triggers_in_step_of_operand`, `cond_outcome_frozen`,
+`late_failure_not_defused`), outcome and value (`cond_value_when_processed`, `cond_value_is_processed_leaves`,
+`detached_never_triggers`) and nesting (`nested_depth2`); helper lemmas in `Lemmas/Cond*.lean`.
 -/
 
 namespace C05
@@ -88,5 +97,501 @@ theorem cond_build (s : KState ℚ σ) (c : EvId) :
 /-! non-vacuity -/
 example : evaluate true 2 2 = true ∧ evaluate true 2 1 = false ∧ evaluate false 3 1 = true ∧ evaluate false 3 0 = false ∧
     evaluate false 0 0 = true := by decide
+
+/-! =====================================================================================================================
+## Global theorems: every program, every state reachable by `step`  (`Lemmas/Cond*.lean`)
+
+Reachability and domain are those of the "exactly once" engine (`KReach`, `Once.Inv0`, `Once.SafeRun`, DESIGN §8.2), plus
+`Cond.DomRun`: no executed `succeed()/fail()` targets a *pending condition* event (a program that triggers a condition by
+hand is outside the statement, DESIGN §3), and the operand list handed to `Condition(...)` names existing events (in
+Python one cannot hold an event that does not exist yet; in the model ids can be guessed).  Both together are
+`Cond.SafeRun`; it is decidable per run (`Cond.SafeUpTo`), automatic for programs whose text satisfies `Cond.DomProg`,
+and `Cond.hand_unsafe` shows a program outside it.  `Cond.Inv0` (the counting invariant between steps) holds in the empty
+environment and is kept by every API call made from outside (`Cond.Inv0.init`, `Cond.Inv0.outside`, `…until_event`,
+`…until_time`).
+
+`Cond.Gone rem s c` ("detached"): `c` lies under a condition whose `_build_value` has run — `_remove_check_callbacks`
+has then removed the `_check`s of `c` from its operands, so `c` can never trigger again (as in the library).
+===================================================================================================================== -/
+
+section Global
+variable (body : σ → Resume → Burst ℚ σ) (fuel : Nat)
+
+/-- **1. The counting invariant** (between two steps): for every pending, attached condition `c` over `ops`,
+`_count` is the number of operand positions whose event is processed, no processed operand has failed, the predicate
+is false on `_count`, `_check` of `c` sits in the callbacks of every unprocessed event exactly once per position at
+which that event occurs in `ops` (so not at all outside `ops`), and the operands are older than `c`. -/
+theorem cond_counting_invariant (s0 s : KState ℚ σ) (h0 : Once.Inv0 false s0) (c0 : Cond.Inv0 s0)
+    (hsafe : Cond.SafeRun body fuel s0) (hr : KReach body fuel s0 s) (c : EvId) (all : Bool) (ops : List EvId)
+    (hk : (s.ev c).kind = .cond all ops) (hu : (s.ev c).out = none) (ha : ¬ Cond.Gone [] s c) :
+    (s.ev c).count = ops.countP (fun e => s.processed e) ∧
+    (∀ e ∈ ops, s.processed e = true → ∀ x, (s.ev e).out ≠ some (.fail x)) ∧
+    evaluate all ops.length (s.ev c).count = false ∧
+    (∀ e L, (s.ev e).cbs = some L → L.count (.check c) = ops.count e) ∧
+    (∀ e ∈ ops, e < c) := by
+  obtain ⟨_, hc, _⟩ := Cond.Inv0.reach body fuel h0 c0 hsafe hr
+  obtain ⟨hops, hall, hcond⟩ := Cond.condOps_of_kind hk
+  have h1 := hc.cnt c hcond hu ha
+  have h2 := hc.nofail c hcond hu ha
+  have h3 := hc.unmet c hcond hu
+  have h4 := hc.chk_att c ha
+  have h5 := hc.older c
+  unfold Cond.nProcessed at h1
+  rw [hops] at h1 h2 h3 h4 h5
+  rw [hall] at h3
+  refine ⟨by simpa using h1, ?_, h3, h4, h5⟩
+  intro e he hp x hx
+  have := (h2 e he hp x hx).2
+  cases this
+
+/-- **1, inside a step**: after any prefix `pre` of the callbacks of the event `q.ev` being processed (`post` still to
+run), `_count` plus the `_check`s of `c` still to run is the number of processed operand positions; the only processed
+operand that may have failed is `q.ev` itself, with a `_check` of `c` still pending; the predicate is false on `_count`;
+the subscriptions are as between steps. -/
+theorem cond_counting_invariant_midstep (s0 s : KState ℚ σ) (h0 : Once.Inv0 false s0) (c0 : Cond.Inv0 s0)
+    (hsafe : Cond.SafeRun body fuel s0) (hr : KReach body fuel s0 s) (q : QEntry ℚ) (rest : List (QEntry ℚ))
+    (hq : popMin s.agenda = some (q, rest)) (pre post : List Cb) (hL : (s.ev q.ev).cbs = some (pre ++ post))
+    (c : EvId) (all : Bool) (ops : List EvId)
+    (hk : ((pre.foldl (runCb body fuel q.ev) { s := openEvent s q rest }).s.ev c).kind = .cond all ops)
+    (hu : ((pre.foldl (runCb body fuel q.ev) { s := openEvent s q rest }).s.ev c).out = none)
+    (ha : ¬ Cond.Gone post (pre.foldl (runCb body fuel q.ev) { s := openEvent s q rest }).s c) :
+    ((pre.foldl (runCb body fuel q.ev) { s := openEvent s q rest }).s.ev c).count + post.count (.check c) =
+      ops.countP (fun e => (pre.foldl (runCb body fuel q.ev) { s := openEvent s q rest }).s.processed e) ∧
+    (∀ e ∈ ops, (pre.foldl (runCb body fuel q.ev) { s := openEvent s q rest }).s.processed e = true →
+      ∀ x, ((pre.foldl (runCb body fuel q.ev) { s := openEvent s q rest }).s.ev e).out = some (.fail x) →
+        e = q.ev ∧ Cb.check c ∈ post) ∧
+    evaluate all ops.length ((pre.foldl (runCb body fuel q.ev) { s := openEvent s q rest }).s.ev c).count = false ∧
+    (∀ e L, ((pre.foldl (runCb body fuel q.ev) { s := openEvent s q rest }).s.ev e).cbs = some L →
+      L.count (.check c) = ops.count e) := by
+  obtain ⟨hi, hc, _⟩ := Cond.Inv0.reach body fuel h0 c0 hsafe hr
+  have hs1 := hsafe.1 s hr
+  have hd1 := hsafe.2 s hr
+  unfold Once.SafeStep at hs1
+  unfold Cond.DomStep at hd1
+  rw [hq] at hs1 hd1
+  simp only [hL] at hs1 hd1
+  have h1 := Once.Inv.openEvent hi q rest hq _ hL
+  have c1 : Cond.CInv (pre ++ post) q.ev (openEvent s q rest) := Cond.CInv.openEvent hc hi q rest _ hL
+  obtain ⟨_, c2, _⟩ := Cond.CInv.foldCbs_prefix body fuel pre post
+    { rem := pre ++ post, e0 := q.ev, run := none, lv := false, strict := false } { s := openEvent s q rest }
+    rfl rfl rfl rfl h1 c1 hs1 hd1
+  generalize (pre.foldl (runCb body fuel q.ev) { s := openEvent s q rest }).s = x at hk hu ha c2 ⊢
+  obtain ⟨hops, hall, hcond⟩ := Cond.condOps_of_kind hk
+  have k1 := c2.cnt c hcond hu ha
+  have k2 := c2.nofail c hcond hu ha
+  have k3 := c2.unmet c hcond hu
+  have k4 := c2.chk_att c ha
+  unfold Cond.nProcessed at k1
+  rw [hops] at k1 k2 k3 k4
+  rw [hall] at k3
+  exact ⟨k1, k2, k3, k4⟩
+
+/-- **2. A condition is triggered exactly when its predicate first holds** (between two steps).
+*Never earlier*: a triggered condition has succeeded only if its predicate holds over the processed operands, and has
+failed only if one of its processed operands failed — with exactly that exception, and that operand is defused.
+*Never later*: while an attached condition is pending, the predicate is false over the processed operands and none of
+them has failed.  (Inside a step the pending `_check`s have to be subtracted: `cond_counting_invariant_midstep`.) -/
+theorem cond_triggers_exactly_when_first_met (s0 s : KState ℚ σ) (h0 : Once.Inv0 false s0) (c0 : Cond.Inv0 s0)
+    (hsafe : Cond.SafeRun body fuel s0) (hr : KReach body fuel s0 s) (c : EvId) (all : Bool) (ops : List EvId)
+    (hk : (s.ev c).kind = .cond all ops) :
+    (∀ v, (s.ev c).out = some (.ok v) → evaluate all ops.length (ops.countP (fun e => s.processed e)) = true) ∧
+    (∀ x, (s.ev c).out = some (.fail x) →
+      ∃ e ∈ ops, s.processed e = true ∧ (s.ev e).out = some (.fail x) ∧ (s.ev e).defused = true) ∧
+    ((s.ev c).out = none → ¬ Cond.Gone [] s c →
+      evaluate all ops.length (ops.countP (fun e => s.processed e)) = false ∧
+      ∀ e ∈ ops, s.processed e = true → ∀ x, (s.ev e).out ≠ some (.fail x)) := by
+  obtain ⟨_, hc, _⟩ := Cond.Inv0.reach body fuel h0 c0 hsafe hr
+  obtain ⟨hops, hall, hcond⟩ := Cond.condOps_of_kind hk
+  refine ⟨?_, ?_, ?_⟩
+  · intro v hv
+    have := hc.met c v hcond hv
+    unfold Cond.nProcessed at this
+    rw [hops, hall] at this; exact this
+  · intro x hx
+    have := hc.failsrc c x hcond hx
+    rw [hops] at this; exact this
+  · intro hu ha
+    obtain ⟨h1, h2, h3, _, _⟩ := cond_counting_invariant body fuel s0 s h0 c0 hsafe hr c all ops hk hu ha
+    rw [h1] at h3
+    exact ⟨h3, h2⟩
+
+/-- **2, the constructor**: `Condition(all, ops)` over existing events returns with the new condition `c` triggered
+exactly when its predicate already holds over the operands processed at construction (or one of them has failed: then
+with that exception, the operand defused); otherwise `_count` is the number of processed operand positions, and every
+unprocessed operand has got one `_check` of `c` appended per position, in operand order. -/
+theorem cond_constructor_triggers_exactly_when_met (s : KState ℚ σ) (all : Bool) (ops : List EvId)
+    (hex : ∀ e ∈ ops, e < s.events.size) :
+    (((mkCond s all ops).1.ev s.events.size).out = none →
+      ((mkCond s all ops).1.ev s.events.size).count = ops.countP (fun e => s.processed e) ∧
+      (∀ e ∈ ops, s.processed e = true → ∀ z, (s.ev e).out ≠ some (.fail z)) ∧
+      evaluate all ops.length (ops.countP (fun e => s.processed e)) = false) ∧
+    (∀ v, ((mkCond s all ops).1.ev s.events.size).out = some (.ok v) →
+      evaluate all ops.length (ops.countP (fun e => s.processed e)) = true) ∧
+    (∀ z, ((mkCond s all ops).1.ev s.events.size).out = some (.fail z) →
+      ∃ e ∈ ops, s.processed e = true ∧ (s.ev e).out = some (.fail z) ∧ ((mkCond s all ops).1.ev e).defused = true) ∧
+    (∀ e, e ≠ s.events.size → ((mkCond s all ops).1.ev e).cbs =
+      (s.ev e).cbs.map (· ++ List.replicate (ops.count e) (Cb.check s.events.size))) ∧
+    (∀ e, e ≠ s.events.size → ((mkCond s all ops).1.ev e).out = (s.ev e).out) := by
+  have h := Cond.mkCond_spec s all ops hex
+  refine ⟨?_, h.c_ok, h.c_fail, h.cbs_old, h.out_old⟩
+  intro hn
+  obtain ⟨h1, h2, h3⟩ := h.c_pending hn
+  rw [h1] at h3
+  exact ⟨h1, h2, h3⟩
+
+/-- **2, as a transition**: if a condition that exists, is pending and attached before a step is triggered after it,
+then the event processed in that step is one of its operands — a condition is triggered only by the processing of an
+operand (or inside its constructor, for operands already processed then: `Cond.mkCond_spec`). -/
+theorem cond_triggers_in_step_of_operand (s0 s s' : KState ℚ σ) (h0 : Once.Inv0 false s0) (c0 : Cond.Inv0 s0)
+    (hsafe : Cond.SafeRun body fuel s0) (hr : KReach body fuel s0 s) (hs : (step body fuel s).state? = some s')
+    (c : EvId) (all : Bool) (ops : List EvId) (hk : (s.ev c).kind = .cond all ops) (hu : (s.ev c).out = none)
+    (ha : ¬ Cond.Gone [] s c) (ht : (s'.ev c).out ≠ none) :
+    ∃ q rest, popMin s.agenda = some (q, rest) ∧ q.ev ∈ ops := by
+  obtain ⟨hi, hc, _⟩ := Cond.Inv0.reach body fuel h0 c0 hsafe hr
+  have hr' : KReach body fuel s0 s' := KReach.step hr hs
+  obtain ⟨_, hc', _⟩ := Cond.Inv0.reach body fuel h0 c0 hsafe hr'
+  have hlater := Cond.later_of_reach body fuel h0 c0 hsafe hr (KReach.step KReach.init hs)
+  obtain ⟨hops, hall, hcond⟩ := Cond.condOps_of_kind hk
+  have hclt : c < s.events.size := Once.lt_of_isCond s c hcond
+  have hk' : (s'.ev c).kind = .cond all ops := by rw [hlater.ev.kind c hclt]; exact hk
+  obtain ⟨hops', hall', hcond'⟩ := Cond.condOps_of_kind hk'
+  -- the shape of the step
+  have hs' := hs
+  unfold _root_.step at hs'
+  split at hs'
+  · cases hs'
+  · rename_i q rest hq
+    refine ⟨q, rest, hq, ?_⟩
+    by_contra hnot
+    have hL : ∃ L, (s.ev q.ev).cbs = some L := by
+      cases h : (s.ev q.ev).cbs with
+      | none => exact absurd h (hi.pop_unprocessed q rest hq)
+      | some L => exact ⟨L, rfl⟩
+    obtain ⟨L, hL⟩ := hL
+    rw [hL] at hs'
+    simp only at hs'
+    rw [closeEvent_state] at hs'
+    cases hs'
+    -- the operands are processed after the step iff they were before
+    have hun : Cond.Unproc (openEvent s q rest) (L.foldl (runCb body fuel q.ev) { s := openEvent s q rest }).s :=
+      Cond.Unproc.krel.foldCbs body fuel q.ev L { s := openEvent s q rest }
+    have hsame : ∀ e ∈ ops, (L.foldl (runCb body fuel q.ev) { s := openEvent s q rest }).s.processed e = s.processed e := by
+      intro e he
+      have hne : e ≠ q.ev := fun h => hnot (h ▸ he)
+      have helt : e < s.events.size := hc.op_lt (by rw [hops]; exact he)
+      apply Cond.processed_congr
+      constructor
+      · intro hn
+        by_contra hcon
+        refine hun e ?_ hn
+        rw [Cond.ev_openEvent, if_neg (fun hh => hne hh.1)]; exact hcon
+      · intro hn; exact hlater.ev.processed e helt hn
+    generalize (L.foldl (runCb body fuel q.ev) { s := openEvent s q rest }).s = s' at ht hc' hlater hk' hops' hall' hcond' hsame
+    have hcnt : ops.countP (fun e => s'.processed e) = ops.countP (fun e => s.processed e) :=
+      List.countP_congr (fun e he => by rw [hsame e he])
+    obtain ⟨_, _, hlate⟩ := cond_triggers_exactly_when_first_met body fuel s0 s h0 c0 hsafe hr c all ops hk
+    obtain ⟨hfalse, hnofail⟩ := hlate hu ha
+    cases ho : (s'.ev c).out with
+    | none => exact ht ho
+    | some o =>
+      cases o with
+      | ok v =>
+        have := hc'.met c v hcond' ho
+        unfold Cond.nProcessed at this
+        rw [hops', hall', hcnt, hfalse] at this
+        cases this
+      | fail x =>
+        obtain ⟨e, he, hp, hx, _⟩ := hc'.failsrc c x hcond' ho
+        rw [hops'] at he
+        rw [hsame e he] at hp
+        have helt : e < s.events.size := hc.op_lt (by rw [hops]; exact he)
+        have htrig := hi.c.done_trig e helt (Cond.processed_iff.mp hp)
+        cases hoe : (s.ev e).out with
+        | none => exact htrig hoe
+        | some oe =>
+          rcases hlater.out e oe hoe with h | ⟨_, h2, _⟩
+          · rw [hx] at h; cases h
+            exact hnofail e he hp x hoe
+          · exact h2 (Cond.processed_iff.mp hp)
+
+/-- **2, only once**: from the moment a condition is triggered its outcome never changes again along the run — except
+that the step which processes a condition that has succeeded replaces its value by the `ConditionValue` — and `_count`
+stays what it was: later operands, also failing ones, change nothing.  (That a triggered condition is scheduled exactly
+once and processed exactly once is `C02.scheduled_at_most_once` / `processed_at_most_once`, which cover condition events.) -/
+theorem cond_outcome_frozen (s0 s s' : KState ℚ σ) (h0 : Once.Inv0 false s0) (c0 : Cond.Inv0 s0)
+    (hsafe : Cond.SafeRun body fuel s0) (hr : KReach body fuel s0 s) (hr2 : KReach body fuel s s') (c : EvId) (o : Outcome)
+    (ho : (s.ev c).out = some o) :
+    ((s'.ev c).out = some o ∨
+      ((s.ev c).cbs ≠ none ∧ (s'.ev c).cbs = none ∧ ∃ v w, o = .ok v ∧ (s'.ev c).out = some (.ok w))) ∧
+    (s'.ev c).count = (s.ev c).count := by
+  have hl := Cond.later_of_reach body fuel h0 c0 hsafe hr hr2
+  refine ⟨?_, hl.count c (by rw [ho]; simp)⟩
+  rcases hl.out c o ho with h | ⟨_, h2, h3, h4⟩
+  · exact Or.inl h
+  · exact Or.inr ⟨h2, h3, h4⟩
+
+/-- **2, inertness lifted to a step**: when an event that has failed is processed and all its callbacks are `_check`s of
+conditions that are already triggered, the whole callback loop changes nothing — none of these conditions defuses the
+failure — and `step()` raises the event's exception (C02 `failure_not_lost`). -/
+theorem late_failure_not_defused (s : KState ℚ σ) (q : QEntry ℚ) (rest : List (QEntry ℚ)) (L : List Cb) (x : Exc)
+    (hq : popMin s.agenda = some (q, rest)) (hL : (s.ev q.ev).cbs = some L)
+    (hfail : (s.ev q.ev).out = some (.fail x)) (hnd : (s.ev q.ev).defused = false)
+    (hchk : ∀ cb ∈ L, ∃ c, cb = .check c ∧ c ≠ q.ev ∧ s.triggered c = true) :
+    step body fuel s = .crash x (openEvent s q rest) := by
+  have hlt : q.ev < s.events.size := Once.lt_of_cbs_some s _ L hL
+  have hopen : ∀ y, (openEvent s q rest).ev y = if y = q.ev then { s.ev q.ev with cbs := none } else s.ev y := by
+    intro y; rw [Cond.ev_openEvent]
+    by_cases h : y = q.ev
+    · rw [if_pos ⟨h, hlt⟩, if_pos h]
+    · rw [if_neg (fun hh => h hh.1), if_neg h]
+  have hfold : ∀ (l : List Cb), (∀ cb ∈ l, ∃ c, cb = .check c ∧ c ≠ q.ev ∧ s.triggered c = true) →
+      l.foldl (runCb body fuel q.ev) { s := openEvent s q rest } = { s := openEvent s q rest } := by
+    intro l
+    induction l with
+    | nil => intro _; rfl
+    | cons cb l ih =>
+      intro h
+      obtain ⟨c, hcb, hne, ht⟩ := h cb List.mem_cons_self
+      have ht' : (openEvent s q rest).triggered c = true := by
+        unfold KState.triggered at ht ⊢
+        rw [hopen, if_neg hne]; exact ht
+      simp only [List.foldl_cons]
+      have : runCb body fuel q.ev { s := openEvent s q rest } cb = { s := openEvent s q rest } := by
+        rw [hcb]
+        simp only [runCb, cond_after_trigger_inert _ c q.ev ht']
+      rw [this]
+      exact ih (fun cb' h' => h cb' (List.mem_cons_of_mem _ h'))
+  unfold _root_.step
+  rw [hq]
+  simp only [hL]
+  rw [hfold L hchk]
+  unfold closeEvent
+  simp only
+  rw [hopen, if_pos rfl]
+  simp only [hfail, hnd, Bool.false_eq_true, if_false]
+
+/-- **3. The value**: the step that processes a condition `c` (with operands) which has succeeded leaves
+`ConditionValue(populate …)` in its `_value`, computed over the state before the step (`c` is not its own leaf), and
+afterwards no `_check` of `c` **or of any condition nested below `c`** is left in any callback list: nothing of `c`
+will ever be called again. -/
+theorem cond_value_when_processed (s0 s s' : KState ℚ σ) (h0 : Once.Inv0 false s0) (c0 : Cond.Inv0 s0)
+    (hsafe : Cond.SafeRun body fuel s0) (hr : KReach body fuel s0 s) (q : QEntry ℚ) (rest : List (QEntry ℚ))
+    (hq : popMin s.agenda = some (q, rest)) (all : Bool) (ops : List EvId) (hk : (s.ev q.ev).kind = .cond all ops)
+    (hs : (step body fuel s).state? = some s') :
+    (∀ v, ops ≠ [] → (s.ev q.ev).out = some (.ok v) →
+      (s'.ev q.ev).out = some (.ok (.cv (populate (q.ev + 1) s q.ev)))) ∧
+    (∀ x, (s.ev q.ev).out = some (.fail x) → (s'.ev q.ev).out = some (.fail x)) ∧
+    (∀ d, Cond.Under s d q.ev → ∀ e L, (s'.ev e).cbs = some L → Cb.check d ∉ L) := by
+  obtain ⟨hi, hc, _⟩ := Cond.Inv0.reach body fuel h0 c0 hsafe hr
+  obtain ⟨_, hc', _⟩ := Cond.Inv0.reach body fuel h0 c0 hsafe (KReach.step hr hs)
+  have hlater := Cond.later_of_reach body fuel h0 c0 hsafe hr (KReach.step KReach.init hs)
+  obtain ⟨hops, hall, hcond⟩ := Cond.condOps_of_kind hk
+  have hlt : q.ev < s.events.size := Once.lt_of_isCond s _ hcond
+  refine ⟨?_, ?_, ?_⟩
+  · intro v hne hok
+    exact Cond.step_builds_value body fuel hi hc (hsafe.1 s hr) (hsafe.2 s hr) q rest hq (by rw [hops]; exact hne) v hok hs
+  · intro x hx
+    rcases hlater.out q.ev _ hx with h | ⟨_, _, _, v, w, hv, _⟩
+    · exact h
+    · cases hv
+  · intro d hd
+    have hproc := (Once.step_processes body fuel s s' q rest hq hlt hs).1
+    have hb : Cond.Built [] s' q.ev :=
+      ⟨by rw [Once.isCond_congr (hlater.ev.kind q.ev hlt)]; exact hcond, hproc, by simp⟩
+    exact hc'.chk_gone d ⟨q.ev, Cond.Under.evMono hlater.ev hd, hb⟩
+
+/-- **3, what the value contains**: `populate` is the flattening recursion over the operand list — a nested condition
+contributes its own processed leaves in place, a plain operand contributes itself if it is processed — and its members
+are exactly the processed leaves below `c` (events that are not conditions, nested at any depth). -/
+theorem cond_value_is_processed_leaves (s0 s : KState ℚ σ) (h0 : Once.Inv0 false s0) (c0 : Cond.Inv0 s0)
+    (hsafe : Cond.SafeRun body fuel s0) (hr : KReach body fuel s0 s) (c : EvId) :
+    populate (c + 1) s c = ((condOps s c).2.flatMap fun e =>
+      if isCond s e then populate (e + 1) s e else if s.processed e then [e] else []) ∧
+    (∀ x, x ∈ populate (c + 1) s c ↔ (Cond.Leaf s x c ∧ s.processed x = true)) ∧
+    (∀ fuel', c < fuel' → populate fuel' s c = populate (c + 1) s c) := by
+  obtain ⟨_, hc, _⟩ := Cond.Inv0.reach body fuel h0 c0 hsafe hr
+  exact ⟨Cond.populate_spec s hc.older c, Cond.mem_populate s hc.older c, fun f hf => Cond.populate_fuel s hc.older f c hf⟩
+
+/-- **3/4. Detached for good**: in every reachable state, nothing of a detached event is subscribed anywhere; a detached
+condition that is still pending stays pending in every later state of the run; and detached stays detached. -/
+theorem detached_never_triggers (s0 s s' : KState ℚ σ) (h0 : Once.Inv0 false s0) (c0 : Cond.Inv0 s0)
+    (hsafe : Cond.SafeRun body fuel s0) (hr : KReach body fuel s0 s) (hr2 : KReach body fuel s s') (d : EvId)
+    (hg : Cond.Gone [] s d) :
+    (∀ e L, (s.ev e).cbs = some L → Cb.check d ∉ L) ∧ Cond.Gone [] s' d ∧
+    (isCond s d = true → (s.ev d).out = none → (s'.ev d).out = none) := by
+  obtain ⟨_, hc, _⟩ := Cond.Inv0.reach body fuel h0 c0 hsafe hr
+  have hl := Cond.later_of_reach body fuel h0 c0 hsafe hr hr2
+  exact ⟨hc.chk_gone d hg, hl.gone d hg, fun h1 h2 => hl.frozen d h1 h2 hg⟩
+
+/-- **4. Nesting, depth 2**: for `outer = Condition(allO, [inner, x])` with `inner = Condition(allI, [a, b])` over plain
+events, in every reachable state
+* the inner and the outer condition each obey clause 2 with `inner` counted like any other operand of `outer`
+  (`inner` is an operand "processed" exactly when the inner condition event has been processed);
+* the value the outer condition gets is `[a | a processed] ++ [b | b processed] ++ [x | x processed]`, whether or not
+  the inner condition has been triggered;
+* once the outer condition has been processed, no `_check` of the outer **or of the inner** condition is subscribed
+  anywhere (the inner one is detached), and an inner condition that is still pending then stays pending for ever. -/
+theorem nested_depth2 (s0 s : KState ℚ σ) (h0 : Once.Inv0 false s0) (c0 : Cond.Inv0 s0)
+    (hsafe : Cond.SafeRun body fuel s0) (hr : KReach body fuel s0 s) (outer inner a b x : EvId) (allO allI : Bool)
+    (hko : (s.ev outer).kind = .cond allO [inner, x]) (hki : (s.ev inner).kind = .cond allI [a, b])
+    (ha : isCond s a = false) (hb : isCond s b = false) (hx : isCond s x = false) :
+    -- triggering, inner
+    ((s.ev inner).out = none → ¬ Cond.Gone [] s inner →
+      evaluate allI 2 ([a, b].countP (fun e => s.processed e)) = false ∧
+      ∀ e ∈ [a, b], s.processed e = true → ∀ z, (s.ev e).out ≠ some (.fail z)) ∧
+    (∀ v, (s.ev inner).out = some (.ok v) → evaluate allI 2 ([a, b].countP (fun e => s.processed e)) = true) ∧
+    -- triggering, outer
+    ((s.ev outer).out = none → ¬ Cond.Gone [] s outer →
+      evaluate allO 2 ([inner, x].countP (fun e => s.processed e)) = false ∧
+      ∀ e ∈ [inner, x], s.processed e = true → ∀ z, (s.ev e).out ≠ some (.fail z)) ∧
+    (∀ v, (s.ev outer).out = some (.ok v) → evaluate allO 2 ([inner, x].countP (fun e => s.processed e)) = true) ∧
+    (∀ z, (s.ev outer).out = some (.fail z) →
+      ∃ e ∈ [inner, x], s.processed e = true ∧ (s.ev e).out = some (.fail z) ∧ (s.ev e).defused = true) ∧
+    -- value
+    populate (outer + 1) s outer =
+      (if s.processed a then [a] else []) ++ (if s.processed b then [b] else []) ++ (if s.processed x then [x] else []) ∧
+    -- the outer condition processed: the inner one is detached
+    ((s.ev outer).cbs = none →
+      (∀ e L, (s.ev e).cbs = some L → Cb.check outer ∉ L ∧ Cb.check inner ∉ L) ∧
+      ((s.ev inner).out = none → ∀ s', KReach body fuel s s' → (s'.ev inner).out = none)) := by
+  obtain ⟨_, hc, _⟩ := Cond.Inv0.reach body fuel h0 c0 hsafe hr
+  obtain ⟨hopsO, _, hcondO⟩ := Cond.condOps_of_kind hko
+  obtain ⟨hopsI, _, hcondI⟩ := Cond.condOps_of_kind hki
+  obtain ⟨i1, i2, i3⟩ := cond_triggers_exactly_when_first_met body fuel s0 s h0 c0 hsafe hr inner allI [a, b] hki
+  obtain ⟨o1, o2, o3⟩ := cond_triggers_exactly_when_first_met body fuel s0 s h0 c0 hsafe hr outer allO [inner, x] hko
+  refine ⟨i3, i1, o3, o1, o2, ?_, ?_⟩
+  · -- the value: flatten twice
+    have hO := Cond.populate_spec s hc.older outer
+    have hI := Cond.populate_spec s hc.older inner
+    unfold Cond.ops at hopsO hopsI
+    rw [hO]
+    show (condOps s outer).2.flatMap _ = _
+    rw [hopsO]
+    simp only [List.flatMap_cons, List.flatMap_nil, hcondI, hx, if_true, Bool.false_eq_true, if_false, List.append_nil]
+    rw [hI]
+    show (condOps s inner).2.flatMap _ ++ _ = _
+    rw [hopsI]
+    simp only [List.flatMap_cons, List.flatMap_nil, ha, hb, Bool.false_eq_true, if_false, List.append_nil]
+  · intro hproc
+    have hbuilt : Cond.Built [] s outer := ⟨hcondO, hproc, by simp⟩
+    have hgO : Cond.Gone [] s outer := ⟨outer, Cond.Under.self _, hbuilt⟩
+    have hgI : Cond.Gone [] s inner :=
+      ⟨outer, Cond.Under.nest (by rw [hopsO]; simp) (Cond.Under.self _), hbuilt⟩
+    refine ⟨fun e L hL => ⟨hc.chk_gone outer hgO e L hL, hc.chk_gone inner hgI e L hL⟩, ?_⟩
+    intro hu s' hr2
+    exact (detached_never_triggers body fuel s0 s s' h0 c0 hsafe hr hr2 inner hgI).2.2 hcondI hu
+
+end Global
+
+/-! ### non-vacuity: concrete programs, evaluated by the Lean kernel (`Lemmas/CondExamples.lean`)
+
+Event ids: `0` main process, `1` its `Initialize`, then the events in creation order. -/
+
+/-- the hypotheses of the global theorems hold for the five example runs (each run ends; every step is in the domain) -/
+example : Once.Inv0 false Cond.start ∧ Cond.Inv0 Cond.start ∧ Cond.SafeRun Cond.allBody 5 Cond.start ∧
+    Cond.SafeRun Cond.anyBody 5 Cond.start ∧ Cond.SafeRun Cond.failBody 5 Cond.start ∧
+    Cond.SafeRun Cond.lateBody 5 Cond.start ∧ Cond.SafeRun Cond.nestBody 5 Cond.start ∧
+    Cond.SafeRun Cond.nest2Body 5 Cond.start :=
+  ⟨Cond.start_once, Cond.start_cond, Cond.all_safe, Cond.any_safe, Cond.fail_safe, Cond.late_safe, Cond.nest_safe,
+    Cond.nest2_safe⟩
+
+/-- …and a program that triggers its condition by hand is outside the domain -/
+example : ¬ Cond.DomStep Cond.handBody 5 Cond.start := Cond.hand_unsafe
+
+/-- outside the domain the statement is false, in the model as in the library: `handBody` calls `succeed()` on its pending
+`all_of([2])` (condition `3`); after that step the condition is triggered although its operand is not processed -/
+example : Cond.outIs (Cond.nth Cond.handBody Cond.start 1) 3 (some (.ok .none)) = true ∧
+    (Cond.nth Cond.handBody Cond.start 1).processed 2 = false ∧ evaluate true 1 0 = false := by decide +kernel
+
+/-- **`all_of` over two timeouts due at the same instant** (`2 & 3`, condition `4`): after the first timeout the condition
+is pending with `_count = 1` and its `_check` is still subscribed to the second; it is triggered in exactly the step that
+processes the second timeout (`_count = 2`); when it is processed its value holds both, in operand order, and no `_check`
+is left. -/
+example :
+    Cond.outIs (Cond.nth Cond.allBody Cond.start 2) 4 none = true ∧ ((Cond.nth Cond.allBody Cond.start 2).ev 4).count = 1 ∧
+    ((Cond.nth Cond.allBody Cond.start 2).ev 3).cbs = some [.check 4] ∧
+    Cond.outIs (Cond.nth Cond.allBody Cond.start 3) 4 (some (.ok .none)) = true ∧
+    ((Cond.nth Cond.allBody Cond.start 3).ev 4).count = 2 ∧
+    Cond.outIs (Cond.nth Cond.allBody Cond.start 4) 4 (some (.ok (.cv [2, 3]))) = true ∧
+    Cond.hasCheck (Cond.nth Cond.allBody Cond.start 4) 4 = false := by decide +kernel
+
+/-- the counting invariant, instantiated on that run: the state after two steps is reachable, the condition is pending
+and attached, so the theorem applies (and says `_count = 1`) -/
+example : ((Cond.nth Cond.allBody Cond.start 2).ev 4).count =
+    [2, 3].countP (fun e => (Cond.nth Cond.allBody Cond.start 2).processed e) :=
+  (cond_counting_invariant Cond.allBody 5 Cond.start _ Cond.start_once Cond.start_cond Cond.all_safe
+    (Cond.reach_nth Cond.allBody 2 (by decide +kernel)) 4 true [2, 3] (by decide +kernel) (by decide +kernel)
+    (Cond.not_gone_of_no_built 4 (by decide +kernel))).1
+
+/-- **`any_of` with an operand that is already processed** (`2 | 3`, `2` processed, condition `4`): triggered inside the
+constructor (`_count = 1`, in the very step that creates it), the unprocessed timeout `3` still carries the `_check`;
+when the condition is processed its value holds exactly the processed operand `2`, and the `_check` is removed from `3`. -/
+example :
+    Cond.outIs (Cond.nth Cond.anyBody Cond.start 1) 4 none = true ∧
+    Cond.outIs (Cond.nth Cond.anyBody Cond.start 2) 4 (some (.ok .none)) = true ∧
+    ((Cond.nth Cond.anyBody Cond.start 2).ev 4).count = 1 ∧
+    ((Cond.nth Cond.anyBody Cond.start 2).ev 3).cbs = some [.check 4] ∧
+    Cond.outIs (Cond.nth Cond.anyBody Cond.start 3) 4 (some (.ok (.cv [2]))) = true ∧
+    ((Cond.nth Cond.anyBody Cond.start 3).ev 3).cbs = some [] := by decide +kernel
+
+/-- **an operand fails before the condition is met** (`2 & 3`, `2` fails at time 1): in the step that processes `2` the
+condition fails with exactly that exception and `2` is defused (so `step()` does not raise); the outcome stays. -/
+example :
+    Cond.outIs (Cond.nth Cond.failBody Cond.start 3) 4 none = true ∧
+    Cond.outIs (Cond.nth Cond.failBody Cond.start 4) 4 (some (.fail ⟨"KeyError", [.int 3]⟩)) = true ∧
+    ((Cond.nth Cond.failBody Cond.start 4).ev 2).defused = true ∧
+    Cond.outIs (Cond.nth Cond.failBody Cond.start 6) 4 (some (.fail ⟨"KeyError", [.int 3]⟩)) = true ∧
+    Cond.hasCheck (Cond.nth Cond.failBody Cond.start 6) 4 = false := by decide +kernel
+
+/-- **an operand fails after the condition was met** (`2 | 3`; `2` succeeds, `3` fails, both before the condition is
+processed): the condition, triggered by `2`, does not change (`_count` stays 1) and does **not** defuse `3` — the step
+that processes `3` raises its exception, as `late_failure_not_defused` says (its hypotheses hold in that state). -/
+example :
+    Cond.outIs (Cond.nth Cond.lateBody Cond.start 2) 4 (some (.ok .none)) = true ∧
+    ((Cond.nth Cond.lateBody Cond.start 2).ev 3).cbs = some [.check 4] ∧
+    (Cond.nth Cond.lateBody Cond.start 2).triggered 4 = true ∧
+    (match step Cond.lateBody 5 (Cond.nth Cond.lateBody Cond.start 2) with
+      | .crash x _ => x.ty == "KeyError" && x.args == [.int 4]
+      | _ => false) = true ∧
+    Cond.outIs (Cond.nth Cond.lateBody Cond.start 3) 4 (some (.ok .none)) = true ∧
+    ((Cond.nth Cond.lateBody Cond.start 3).ev 4).count = 1 ∧
+    ((Cond.nth Cond.lateBody Cond.start 3).ev 3).defused = false := by decide +kernel
+
+/-- **nested, the outer condition fires first**: `outer = (2 & 3) | 4` with `inner = 5`, `outer = 6`, timeouts at 1, 3, 2.
+At time 2 the outer `any_of` is triggered by `4` while the inner `all_of` is pending with `_count = 1`; when the outer one
+is processed its value is `[2, 4]` — the processed leaf of the *untriggered* inner condition included — and the `_check`s
+of the outer **and of the inner** condition are gone; the inner condition is still pending when the run ends. -/
+example :
+    Cond.outIs (Cond.nth Cond.nestBody Cond.start 3) 6 (some (.ok .none)) = true ∧
+    Cond.outIs (Cond.nth Cond.nestBody Cond.start 3) 5 none = true ∧
+    ((Cond.nth Cond.nestBody Cond.start 3).ev 5).count = 1 ∧
+    Cond.outIs (Cond.nth Cond.nestBody Cond.start 4) 6 (some (.ok (.cv [2, 4]))) = true ∧
+    Cond.hasCheck (Cond.nth Cond.nestBody Cond.start 4) 6 = false ∧
+    Cond.hasCheck (Cond.nth Cond.nestBody Cond.start 4) 5 = false ∧
+    Cond.outIs (Cond.nth Cond.nestBody Cond.start 6) 5 none = true := by decide +kernel
+
+/-- **nested, the inner condition fires first**: `outer = (2 | 3) & 4` (timeouts at 1, 4, 2): the inner `any_of` is triggered
+at time 1 and processed with value `[2]`; its processing is what the outer `all_of` counts (`_count = 1`); the outer one
+is triggered in the step that processes `4` and gets the value `[2, 4]`. -/
+example :
+    Cond.outIs (Cond.nth Cond.nest2Body Cond.start 2) 5 (some (.ok .none)) = true ∧
+    Cond.outIs (Cond.nth Cond.nest2Body Cond.start 3) 5 (some (.ok (.cv [2]))) = true ∧
+    ((Cond.nth Cond.nest2Body Cond.start 3).ev 6).count = 1 ∧
+    Cond.outIs (Cond.nth Cond.nest2Body Cond.start 3) 6 none = true ∧
+    Cond.outIs (Cond.nth Cond.nest2Body Cond.start 4) 6 (some (.ok .none)) = true ∧
+    Cond.outIs (Cond.nth Cond.nest2Body Cond.start 5) 6 (some (.ok (.cv [2, 4]))) = true := by decide +kernel
+
+/-- `nested_depth2` instantiated on the first nested run, after the outer condition has been processed -/
+example : populate 7 (Cond.nth Cond.nestBody Cond.start 4) 6 = [2, 4] ∧
+    ∀ s', KReach Cond.nestBody 5 (Cond.nth Cond.nestBody Cond.start 4) s' → (s'.ev 5).out = none := by
+  have h := nested_depth2 Cond.nestBody 5 Cond.start _ Cond.start_once Cond.start_cond Cond.nest_safe
+    (Cond.reach_nth Cond.nestBody 4 (by decide +kernel)) 6 5 2 3 4 false true (by decide +kernel) (by decide +kernel)
+    (by decide +kernel) (by decide +kernel) (by decide +kernel)
+  obtain ⟨_, _, _, _, _, hval, hdet⟩ := h
+  refine ⟨?_, (hdet (by decide +kernel)).2 (by decide +kernel)⟩
+  rw [hval]
+  decide +kernel
+
+/-! ===================================== end of the global block ===================================== -/
 
 end C05
